@@ -1,4 +1,5 @@
 #include "simudp.h"
+#include <dlfcn.h>
 
 #include <QUdpSocket>
 
@@ -99,6 +100,10 @@ qint64 UdpNet::write(QUdpSocket *s, const QByteArray &data, const QHostAddress &
 bool UdpNet::deliver(const Datagram &d0)
 {
     Datagram d = d0;
+    if (blocked && blocked(d)) {
+        ++droppedBlocked;
+        return false;
+    }
     for (const auto &m : std::as_const(nat)) {
         if (m.pub == d.dst && m.pubPort == d.dport) {
             d.dst = m.priv;
@@ -113,6 +118,9 @@ bool UdpNet::deliver(const Datagram &d0)
     }
     Bound *b = findAddr(d.dst, d.dport);
     if (!b) {
+        if (onUnbound && onUnbound(d)) {
+            return true;
+        }
         ++droppedNoListener;
         return false;
     }
@@ -200,6 +208,19 @@ bool QAbstractSocket::bind(const QHostAddress &address, quint16 port, BindMode)
     auto *n = UdpNet::instance();
     auto *u = qobject_cast<QUdpSocket *>(this);
     return n && u && n->bind(u, address, port);
+}
+
+// bind(port): "any address" — the world decides which address of the simulated host the socket uses
+bool QAbstractSocket::bind(quint16 port, BindMode mode)
+{
+    auto *n = UdpNet::instance();
+    auto *u = qobject_cast<QUdpSocket *>(this);
+    if (!n || !u) {
+        using Fn = bool (*)(QAbstractSocket *, quint16, int);
+        static Fn real = reinterpret_cast<Fn>(dlsym(RTLD_NEXT, "_ZN15QAbstractSocket4bindEt6QFlagsINS_8BindFlagEE"));
+        return real(this, port, (int)mode);
+    }
+    return n->bind(u, n->anyAddress ? n->anyAddress(u) : QHostAddress(QHostAddress::AnyIPv4), port);
 }
 
 QHostAddress QAbstractSocket::localAddress() const
